@@ -123,6 +123,16 @@ def warmup():
         V.held_locks()
 
 
+def _spec_of_node(node, f, kw):
+    """The treespec of ``node`` made while its flatten function is well-formed (the malformed mode is switched off for the
+    duration), so that flatten_up_to re-invokes the now malformed function on an operand."""
+    m, f.malform = f.malform, None
+    try:
+        return optree.tree_structure(node, **kw)
+    finally:
+        f.malform = m
+
+
 def refcounts(tracked, into):
     # filled in place: allocating a container per measurement would itself change the live-object count
     rc = sys.getrefcount
@@ -484,13 +494,19 @@ def run_job(job, io):
             ('node_flatten', lambda node: optree.tree_flatten(node, **kw)),
             ('node_with_path', lambda node: optree.tree_flatten_with_path(node, **kw)),
             ('node_iter', lambda node: list(optree.tree_iter(node, **kw))),
+            # the constructor route reaches the custom flatten function too (the collection's values must be treespecs: the
+            # malformed function is consulted before they are looked at)
+            ('from_collection', lambda node: optree.treespec_from_collection(type(node)([optree.treespec_leaf(none_is_leaf=kw['none_is_leaf'])] * max(len(node.children), 1), node.aux), **kw)),
+            ('flatten_up_to', lambda node: optree.tree_structure([0], **kw).compose(optree.treespec_leaf(none_is_leaf=kw['none_is_leaf'])) and _spec_of_node(node, f_current[0], kw).flatten_up_to(node)),
         )
+        f_current = [None]
         buf0, buf1 = array('q', [0] * len(tracked)), array('q', [0] * len(tracked))
         for (_cls, _ns, f) in scn.reg.live:
             node = insts.get(_cls)
             if node is None:
                 continue
-            for m in U.MALFORMS + ('list3',):
+            f_current[0] = f
+            for m in U.MALFORMS + ('list3', 'len0'):
                 seen = {}
                 for ename, ep in entry_points:
                     site = '%s@malformed:%s' % (ename, m)
@@ -516,7 +532,11 @@ def run_job(job, io):
                         grew = [(type(o).__name__, a, b) for o, a, b in zip(tracked, buf0, buf1) if b > a]
                         if grew:
                             viol('retained', site, 'references still held after a malformed flatten result (%s) was rejected: %r' % (m, grew[:6]))
-                if len(set(seen.values())) > 1:
+                # the flatten-family entry points must agree on the exception class; the constructor and flatten_up_to run other
+                # validations of their own first (values must be treespecs; arity against the treespec), so for them only
+                # accept-or-refuse has to agree
+                classic = {k: v for k, v in seen.items() if k not in ('from_collection', 'flatten_up_to')}
+                if len(set(classic.values())) > 1 or len({v == 'ok' for v in seen.values()}) > 1:
                     viol('malformed-disagree', 'malformed:%s' % m, 'entry points judge the same malformed custom flatten result (%s) differently: %r' % (m, seen))
                 for ename, oc in seen.items():
                     keys.add('malformed|%s|%s|%s' % (ename, m, oc))
